@@ -6,7 +6,7 @@ import vlib
 from runner import PropBase
 from vlib import Rng
 
-KEYS = ["mz", "st", "ga", "gA", "gr", "iv", "ch", "sp", "ip", "spn", "ipn", "rn", "vn", "cr", "cv", "sz", "fm", "mg", "mga", "g0", "sp0", "ip0", "sa", "ia"]
+KEYS = ["mz", "st", "ga", "gA", "gr", "iv", "ch", "sp", "ip", "spn", "ipn", "rn", "vn", "cr", "cv", "sz", "fm", "mg", "mga", "g0", "sp0", "ip0", "sa", "ia", "ev"]
 UNKNOWN = ["-", "foo", "$eip", "RAX", "Rsp", "x31", "r32", "g_r32", "g8", "pc.", "cpsr", "EIP", "zz"]
 
 
@@ -281,7 +281,7 @@ class C18(PropBase):
         if ans.startswith("P;;"):
             return "%s: a method panicked outside the guarded reads: %s" % (variant, ans[3:200])
         d = parse(ans)
-        if any(k not in d for k in KEYS + ["RG", "spm", "ipm", "sm", "ev", "mf", "ma"]):
+        if any(k not in d for k in KEYS + ["RG", "spm", "ipm", "sm", "mf", "ma"]):
             return "unparseable answer " + ans[:120]
         who = "%s %r" % (variant, "" if name == "-" else name)
         RG = lst(d["RG"])
@@ -289,20 +289,25 @@ class C18(PropBase):
         member_canon = lst(d["sm"]) if members else []
         if members and len(member_canon) != len(members):
             return "unparseable sm"
-        if members and "N" in member_canon:
-            return self._unknown_member(who, vspec, d)
+        # F-C18b, exactly as Properties.c18_unreachable_exactly states it: with a member the context does not know in the set,
+        # (1) get_register / MinidumpContext::get_register reach unreachable!() iff the name read IS such a member (and
+        # register_is_valid says 1 for it), (2) the CpuContext set enumeration reaches it; nothing else may panic or differ
+        unknown_members = [m for m, c in zip(members, member_canon) if c == "N"]
+        exp_gr_panic = name in unknown_members
+        exp_cv_panic = bool(unknown_members)
         accepted = d["st"] == "1"
         canon = d["mz"]
         # --- unknown names: absence, never a panic from the checked accessor
         if not accepted:
             if canon != "N":
                 return "%s: memoize_register accepts the name (%s) but set_register refuses it" % (who, canon)
-            if d["gA"] != "N" or d["gr"] != "N" or d["mg"] != "N":
+            absent = ("N", "P") if exp_gr_panic else ("N",)
+            if d["gA"] != "N" or d["gr"] not in absent or d["mg"] not in absent:
                 return "%s: unknown name does not read as None through get_register (All: %s, case validity: %s, MinidumpContext: %s)" % (
                     who, d["gA"], d["gr"], d["mg"])
             if d["ch"]:
                 return "%s: refused set_register changed %s" % (who, d["ch"])
-            if d["iv"] != "0":
+            if d["iv"] != "0" and not exp_gr_panic:
                 return "%s: unknown name reported valid" % who
         else:
             # --- write then read back
@@ -329,7 +334,7 @@ class C18(PropBase):
             exp = value if want else "N"
             if d["gr"] != exp or d["mg"] != exp:
                 return "%s: get_register under %s returned %s (MinidumpContext: %s), expected %s" % (who, vspec, d["gr"], d["mg"], exp)
-            w = int(d["sz"]) * 2
+            w = names_table()[variant]["width"] // 4
             if d["fm"] != "0x%0*x" % (w, int(value)):
                 return "%s: format_register gives %s for %s" % (who, d["fm"], value)
         # --- stack / instruction pointer names agree with the dedicated accessors
@@ -359,27 +364,25 @@ class C18(PropBase):
             want_cv = sorted(members)
         if d["vn"] == "P" or lst(d["vn"]) != want_vn:
             return "%s: valid_registers() under %s lists [%s], expected %s" % (variant, vspec, d["vn"], want_vn)
-        if d["cv"] == "P" or lst(d["cv"]) != want_cv:
+        if exp_cv_panic:
+            # known finding (P), or - should the code ever skip / refuse unknown members - the known members only
+            if d["cv"] != "P" and lst(d["cv"]) != sorted(m for m in members if m not in unknown_members):
+                return "%s: CpuContext::valid_registers under %s lists [%s]" % (variant, vspec, d["cv"])
+        elif d["cv"] == "P" or lst(d["cv"]) != want_cv:
             return "%s: CpuContext::valid_registers under %s lists [%s], expected %s" % (variant, vspec, d["cv"], want_cv)
         if d["ev"] != "1":
             return "%s: an enumeration reported a value different from get_register_always" % variant
         if d["mf"] != "1" or d["ma"] != "1" or d["mga"] != d["ga"]:
             return "%s: MinidumpContext::format_register / get_register_always differ from the CpuContext methods" % who
-        if int(d["sz"]) * 8 != names_table()[variant]["width"]:
+        if not d["sz"].isdigit() or int(d["sz"]) * 8 != names_table()[variant]["width"]:
             return "%s: register_size %s does not match the Register type" % (variant, d["sz"])
-        return None
-
-    def _unknown_member(self, who, vspec, d):
-        """F-C18b: a validity set holding a name the context does not know.  The checked accessors must still not panic."""
-        hit = [k for k in ("gr", "mg", "cv", "vn") if d[k] == "P"]
+        # everything else about this case is as the property demands; what remains is the known finding itself, reported only
+        # where c18_unreachable_exactly places it
+        hit = [k for k in ("gr", "mg") if exp_gr_panic and d[k] == "P"] + (["cv"] if exp_cv_panic and d["cv"] == "P" else [])
         if hit:
-            return ("UNKNOWN-MEMBER: validity %s holds a name the context does not know and %s reached unreachable!() "
-                    "(get_register / MinidumpContext::get_register / CpuContext::valid_registers)" % (vspec, "+".join(hit)))
-        # no panic: the enumeration must still be exactly the registers named (through aliases) by the known members
-        known = [c for c in lst(d["sm"]) if c != "N"]
-        want_vn = [r for r in lst(d["RG"]) if r in known]
-        if lst(d["vn"]) != want_vn:
-            return "%s: valid_registers() under %s lists [%s], expected %s" % (who, vspec, d["vn"], want_vn)
+            return ("UNKNOWN-MEMBER: validity %s holds a name the context does not know (%s) and %s reached unreachable!() "
+                    "(get_register / MinidumpContext::get_register on that member; CpuContext::valid_registers over the set)"
+                    % (vspec, ",".join(unknown_members), "+".join(hit)))
         return None
 
     def nontrivial(self, case, ans):
